@@ -358,7 +358,7 @@ def repeat_addr_cases(intro, rng, tier):
                 total = end + 2
                 out2 = base + end
                 # per-operand: text and a function copy address -> abstract operand
-                texts, mk = [], []
+                texts, mk, fardefs = [], [], []
                 for q in parts:
                     if q in ("R", "@R", "B"):
                         sp = rng.choice(["out1", "out1+k", "out2", "abs", "dot", "sym"] if q != "B" else ["out1", "out1+k", "out2", "dot", "sym"])
@@ -378,8 +378,9 @@ def repeat_addr_cases(intro, rng, tier):
                             texts.append(at + IC.octnum(t)); mk.append(lambda a, c=ctor, t=t: (c, t))
                         elif sp == "sym":
                             t = base + rng.choice([0, 2]) if q == "B" else rng.choice([0o100, 0o177776, base + 6])
-                            texts.append(at + "far"); mk.append(lambda a, c=ctor, t=t: (c, t))
-                            far = t
+                            name = "far%d" % len(texts)
+                            texts.append(at + name); mk.append(lambda a, c=ctor, t=t: (c, t))
+                            fardefs.append("%s = %s" % (name, IC.octnum(t)))
                         else:   # '.' is the address of the copy itself
                             k = rng.choice([0, 2, -2, 4]) if q == "B" else rng.choice([0, 2, 6, -4, 0o100])
                             if m == "sob":
@@ -398,7 +399,7 @@ def repeat_addr_cases(intro, rng, tier):
                 line = m + " " + ", ".join(texts)
                 inner = {"plain": line, "nop-before": "nop\n" + line, "even-varying": ".even\n" + line + "\n.byte 1, 2, 3",
                          "nested": ".repeat %d { %s }" % (m2, line), "nested-nop": "nop\n.repeat %d { %s }" % (m2, line)}[body]
-                src = ([".link " + IC.octnum(base)] if link else []) + (["far = " + IC.octnum(far)] if "far" in line else []) + \
+                src = ([".link " + IC.octnum(base)] if link else []) + fardefs + \
                       ["out1: .blkb " + IC.num(p), ".repeat %d {" % n, inner, "}", ".even", "out2: .blkb 2"]
                 src = "\n".join(src) + "\n"
                 for j, off in enumerate(offs):
